@@ -9,7 +9,7 @@ computations can be compared modulo commutativity/associativity and accessor-vs-
   ('cnot', colour)             colour negation, involutive
   ('bbeq', a, b) ('bbne', a, b)
 """
-from .expr import norm
+from .expr import walk, norm
 
 OPS = {'bitand': '&', 'bitor': '|', 'bitxor': '^'}
 BOARD = 'board::Board'
@@ -27,6 +27,9 @@ def _op_of(callee):
 
 
 _AN = [None]
+_IL = {}
+_depth = [0]
+_NO_INLINE = {'movegen::movegen::MoveGen::enumerate_moves'}     # anchors that rules need to see as calls
 
 
 def bb(e, an=None):
@@ -147,6 +150,24 @@ def _bb(e):
         if callee in ('core::cmp::PartialEq::ne', '<bitboard::BitBoard as core::cmp::PartialEq>::ne') and \
                 e[3] and 'bitboard::BitBoard' in str(e[3][0]):
             return ('bbne',) + tuple(sorted(args, key=_key))
+        # a private pure helper of the crate (`fn their_pieces(&self) -> &BitBoard`, `fn their_sliders(board, piece)`):
+        # canonicalise its body instead of the call
+        an = _AN[0]
+        if an is not None and callee in an.facts.bodies and not (an.facts.fns.get(callee) or {}).get('pub', True) and \
+                callee not in _NO_INLINE and _depth[0] < 3:
+            from .inline import Inliner
+            il = _IL.get(id(an))
+            if il is None:
+                il = _IL[id(an)] = Inliner(an)
+            if il.inlinable(callee) and all(a[0] != 'ref' for a in e[2]):
+                sm = an.summary(callee)
+                r = il.subst(sm.ret, e[2], il.param_types(callee))
+                if not any(isinstance(x, tuple) and x and x[0] == 'unk' for x in walk(r)):
+                    _depth[0] += 1
+                    try:
+                        return _bb(norm(r))
+                    finally:
+                        _depth[0] -= 1
         return ('call', callee, tuple(args), ())     # generic arguments are dropped in the canonical form
     if t == 'mem' and e[1][0] == 'h':
         # dereference of a reference returned by an accessor: the accessor mapping already yields the value
